@@ -17,7 +17,7 @@ from drive_layers import ints
 
 L = tf.keras.layers
 CLASSES = ["QDense", "QConv1D", "QConv2D", "QDepthwiseConv2D", "QSeparableConv2D", "QSimpleRNN", "QLSTM", "QGRU",
-           "QBatchNormalization", "QScaleShift"]
+           "QBidirectional", "QBatchNormalization", "QScaleShift"]
 VARIANTS = ["fixed", "po2", "auto_po2_bounds", "auto_po2_unsigned", "auto_axis", "ternary_auto", "binary_axis"]
 INDEP = {"fixed", "po2"}
 
@@ -40,8 +40,16 @@ def qkind(q):
 
 
 def pairs(layer):
-  if layer.__class__.__name__ in ("QSimpleRNN", "QLSTM", "QGRU"):
-    return list(zip(layer.get_quantizers()[:-1], layer.get_weights()))
+  """(quantizer, weight) pairs by ROLE (my reading of the classes, not the export loop's zip)."""
+  n = layer.__class__.__name__
+  if n in ("QSimpleRNN", "QLSTM", "QGRU"):
+    return list(zip(layer.get_quantizers()[:-1], layer.get_weights()))            # the last one is the state quantizer
+  if n == "QBidirectional":
+    f, b = layer.forward_layer, layer.backward_layer
+    return list(zip(list(f.get_quantizers()[:-1]) + list(b.get_quantizers()[:-1]), layer.get_weights()))
+  if n == "QBatchNormalization":
+    qs = [q for q, used in zip(layer.get_quantizers(), [layer.scale, layer.center, True, True]) if used]
+    return list(zip(qs, layer.get_weights()))
   return list(zip(layer.get_quantizers(), layer.get_weights()))
 
 
